@@ -154,3 +154,24 @@ def exclude_source_of_crossed_derived(case, v=None):
                     if ef not in cr and ef in S.basic_roots(sp, n):
                         return True
     return False
+
+
+# M9 ------------------------------------------------------------------------------------------------
+def shared_weighted_uncrossed_in_subblock(case, v=None):
+    """A Merge/Nest/Repeat tree in which some sub-block has a weighted basic factor in its design but not in its
+    crossing (so that sub-block desugars the factor on its own; the combined design then holds the original and
+    the desugared factors under one name)."""
+    sp = _spec(case)
+    F = sp["factors"]
+    tree = sp["block"]
+    if tree["op"] == "cross":
+        return False
+    for b in S.walk_blocks(tree):
+        if b["op"] != "cross":
+            continue
+        crossed = set(n for c in b["crossings"] for n in c)
+        for n in b["design"]:
+            f = F[n]
+            if f["kind"] == "basic" and any(w > 1 for _, w in f["levels"]) and n not in crossed:
+                return True
+    return False
